@@ -32,6 +32,8 @@ pub enum Dec {
     Bcj(Bcj, u32),
     Delta(usize),
     Bcj2 { size: u64 },
+    /// BCJ2 with the four streams given separately: the stored input is main ++ call ++ jump ++ rc with these lengths
+    Bcj2Split { size: u64, main: u16, call: u16, jump: u16 },
 }
 
 impl Dec {
@@ -45,7 +47,7 @@ impl Dec {
             Dec::LzipMt(_) => "lzip-mt",
             Dec::Bcj(..) => "bcj",
             Dec::Delta(_) => "delta",
-            Dec::Bcj2 { .. } => "bcj2",
+            Dec::Bcj2 { .. } | Dec::Bcj2Split { .. } => "bcj2",
         }
     }
 }
@@ -115,6 +117,11 @@ fn run_decoder(dec: &Dec, data: &[u8]) -> io::Result<usize> {
             let inputs: Vec<&[u8]> = vec![&data[..q], &data[q..2 * q], &data[2 * q..3 * q], &data[3 * q..]];
             drain(BCJ2Reader::new(inputs, *size))
         }
+        Dec::Bcj2Split { size, main, call, jump } => {
+            let (a, b, c) = (*main as usize, *call as usize, *jump as usize);
+            let inputs: Vec<&[u8]> = vec![&data[..a], &data[a..a + b], &data[a + b..a + b + c], &data[a + b + c..]];
+            drain(BCJ2Reader::new(inputs, *size))
+        }
     }
 }
 
@@ -162,7 +169,7 @@ fn declared_dict(dec: &Dec, data: &[u8]) -> u64 {
             m
         }
         Dec::Bcj(..) | Dec::Delta(_) => 0,
-        Dec::Bcj2 { .. } => 1 << 20, // four fixed 256 KiB stream buffers
+        Dec::Bcj2 { .. } | Dec::Bcj2Split { .. } => 1 << 20, // four fixed 256 KiB stream buffers
     }
 }
 
@@ -358,6 +365,45 @@ fn build(thorough: bool) -> C06 {
     }
     for size in [0u64, 1, 599, 600, 601, 1 << 32, u64::MAX] {
         cases.push(Case { sub: None, dec: Dec::Bcj2 { size }, input: ci, class: "filter-params" });
+    }
+
+    // BCJ2 with four separately shaped streams: every combination of a main stream holding 0..2 branch opcodes, CALL and
+    // JUMP streams of every length 0..=9 (so also lengths that are not a multiple of the 4-byte operand), range-coder
+    // streams that decode the branches as converted / not converted / are cut short or start with a bad byte, and
+    // declared sizes below, at and beyond what the streams can deliver
+    {
+        let mains: Vec<Vec<u8>> = vec![
+            vec![], vec![0xE8], vec![0x00, 0xE8], vec![0xE8, 0xE8], vec![0xE9], vec![0x0F, 0x80], vec![0x0F, 0x80, 0x00, 0xE8],
+            vec![0x00, 0x00, 0x00, 0x00, 0x00, 0xE8], vec![0xE9, 0x00, 0x00, 0x00, 0x00, 0xE8, 0x11],
+        ];
+        let rcs: Vec<Vec<u8>> = vec![
+            vec![], vec![0x00], vec![0x00, 0x00, 0x00, 0x00, 0x00], vec![0x00, 0xFF, 0xFF, 0xFF, 0xFE], vec![0x00, 0xFF, 0xFF, 0xFF, 0xFF, 0xFF, 0xFF],
+            vec![0x01, 0x00, 0x00, 0x00, 0x00], vec![0x00, 0x80, 0x00, 0x00, 0x00, 0x00, 0x00], vec![0x00, 0xFF, 0xFF],
+        ];
+        for m in &mains {
+            for cl in 0..=9usize {
+                for jl in 0..=9usize {
+                    if !thorough && cl > 5 && jl > 5 {
+                        continue;
+                    }
+                    for rc in &rcs {
+                        let mut blob = m.clone();
+                        blob.extend((0..cl).map(|i| 0x10 + i as u8));
+                        blob.extend((0..jl).map(|i| 0xF0 - i as u8));
+                        blob.extend_from_slice(rc);
+                        let bi = add_input(blob, &mut inputs);
+                        for size in [0u64, 1, 5, 64, 1 << 20] {
+                            cases.push(Case {
+                                sub: None,
+                                dec: Dec::Bcj2Split { size, main: m.len() as u16, call: cl as u16, jump: jl as u16 },
+                                input: bi,
+                                class: "bcj2-streams",
+                            });
+                        }
+                    }
+                }
+            }
+        }
     }
 
     // (ii) every corpus file x every position x every byte value (+ CRC fix-up variant)
